@@ -268,13 +268,19 @@ func (c *checker) scalarSetBytesWide(be *scalarBackend) {
 		c.fail(c.layout, pos, name+": layout", "not decided: the operands of the two Montgomery multiplications could not be obtained ("+why+")")
 		return
 	}
+	// the two multiplications are independent: they are told apart by the
+	// constant they multiply by, not by their order in the program
+	isG := func(p *Ptr, g *ssa.Global) bool { return p != nil && p.G == g && len(p.Path) == 0 }
 	lo, hi := calls[0], calls[1]
-	var lmsgs []string
-	if lo.b == nil || lo.b.G != gR || len(lo.b.Path) != 0 {
-		lmsgs = append(lmsgs, "the first Montgomery multiplication does not multiply by constR")
+	if isG(calls[0].b, gRR) && isG(calls[1].b, gR) {
+		lo, hi = calls[1], calls[0]
 	}
-	if hi.b == nil || hi.b.G != gRR || len(hi.b.Path) != 0 {
-		lmsgs = append(lmsgs, "the second Montgomery multiplication does not multiply by constRR")
+	var lmsgs []string
+	if !isG(lo.b, gR) {
+		lmsgs = append(lmsgs, "neither Montgomery multiplication multiplies the low half by constR (lo*R/R = lo)")
+	}
+	if !isG(hi.b, gRR) {
+		lmsgs = append(lmsgs, "neither Montgomery multiplication multiplies the high half by constRR (hi*R^2/R = hi*R)")
 	}
 	if lo.recv == nil || !lo.recv.same(lo.a) || hi.recv == nil || !hi.recv.same(hi.a) || lo.a.same(hi.a) {
 		lmsgs = append(lmsgs, "the two Montgomery multiplications do not update their two distinct operands in place")
@@ -306,7 +312,7 @@ func (c *checker) scalarSetBytesWide(be *scalarBackend) {
 		w.diffExact(weighted(all, offs), bitsForm(vars, 512), fmt.Sprintf("sum lo_i*2^(%d*i) + 2^%d*sum hi_i*2^(%d*i)", be.w, split, be.w), "limb (lo then hi)", all, offs))
 	c.sample(map[string]any{
 		"function": name, "radix": be.name,
-		"identity": fmt.Sprintf("at the two calls of MontgomeryMul made by the body (lo.MontgomeryMul(&lo,&constR), hi.MontgomeryMul(&hi,&constRR)): sum_i lo_i*2^(%d*i) + 2^%d * sum_i hi_i*2^(%d*i) == sum_{k<512} 2^k*bit_k(in) exactly, every limb a layout within %d bits", be.w, split, be.w, be.w),
+		"identity": fmt.Sprintf("at the two calls of MontgomeryMul made by the body, in either order (lo.MontgomeryMul(&lo,&constR), hi.MontgomeryMul(&hi,&constRR), told apart by the constant): sum_i lo_i*2^(%d*i) + 2^%d * sum_i hi_i*2^(%d*i) == sum_{k<512} 2^k*bit_k(in) exactly, every limb a layout within %d bits", be.w, split, be.w, be.w),
 		"lo":       describeCells(w, lo.limbs),
 		"hi":       describeCells(w, hi.limbs),
 		"stats":    w.StatList(),
